@@ -84,3 +84,15 @@ pub(crate) fn note_nesting(depth: u16) {
 pub fn take_max_nesting() -> u16 {
     NESTING_MAX.with(|c| c.replace(0))
 }
+
+/// Returns whether the AVX2 `contains` path is active in this process.
+#[cfg(any(target_arch = "x86", target_arch = "x86_64"))]
+pub fn simd_active() -> bool {
+    crate::ast::field_expr::verif_simd_active()
+}
+
+/// Returns whether the AVX2 `contains` path is active in this process.
+#[cfg(not(any(target_arch = "x86", target_arch = "x86_64")))]
+pub fn simd_active() -> bool {
+    false
+}
